@@ -10,6 +10,7 @@
 //   c11.nm   <ftol> <mpts> <row>… <prog>     -> ok ndim pmin… fmin nfunc mpts y… rows… f(pmin) f(row_i)… ntrace pts…
 //   c11.nmd  <ftol> <start> <deltas> <prog>
 //   c11.nm1  <ftol> <start> <delta> <prog>
+//   c11.nmseq <ftol> <n> <member>...         -> ok SEQ <answers of the runs on ONE object, joined by |> FRESH <answer of each run on a fresh object, joined by |>
 #define HZ_MAIN
 #include "common.hpp"
 
@@ -199,6 +200,77 @@ std::string handle(const std::string& op, Args& a)
 				pmin = M.minimize(start, delta, f);
 			report_nm(o, M, pmin, pr, trace);
 		});
+	}
+	if(op == "c11.nmseq")
+	{
+		// one Minimization object runs the whole sequence in ONE child; then every member is run on a
+		// fresh object in a fresh child.  Answer: ok SEQ <child answer, members joined by |> FRESH <answer> | <answer> ...
+		struct Member
+		{
+			std::string kind;
+			std::vector<std::vector<double>> pp;
+			std::vector<double> start, deltas;
+			double delta = 0;
+			std::vector<Tok> pr;
+		};
+		double ftol = a.dbl();
+		size_t n	= a.u64();
+		std::vector<Member> ms(n);
+		for(auto& m : ms)
+		{
+			m.kind = a.tok();
+			if(m.kind == "nm")
+				m.pp = rows(a);
+			else if(m.kind == "nmd")
+			{
+				m.start	 = a.dbls();
+				m.deltas = a.dbls();
+			}
+			else if(m.kind == "nm1")
+			{
+				m.start = a.dbls();
+				m.delta = a.dbl();
+			}
+			else
+				throw BadArgs("member kind: " + m.kind);
+			m.pr = prog(a);
+		}
+		a.end();
+		auto run_member = [](Minimization& M, Member m, Out& o) {	 // by value: the library takes non-const references
+			std::vector<std::vector<double>> trace;
+			std::function<double(std::vector<double>)> f = [&](std::vector<double> x) {
+				trace.push_back(x);
+				return eval(m.pr, x);
+			};
+			std::vector<double> pmin;
+			if(m.kind == "nm")
+				pmin = M.minimize(m.pp, f);
+			else if(m.kind == "nmd")
+				pmin = M.minimize(m.start, m.deltas, f);
+			else
+				pmin = M.minimize(m.start, m.delta, f);
+			report_nm(o, M, pmin, m.pr, trace);
+		};
+		std::string seq = run_forked([&](Out& o) {
+			Minimization M(ftol);
+			for(size_t i = 0; i < ms.size(); i++)
+			{
+				if(i)
+					o << "|";
+				run_member(M, ms[i], o);
+			}
+		});
+		std::string res = "ok SEQ " + seq + " FRESH";
+		for(size_t i = 0; i < ms.size(); i++)
+		{
+			if(i)
+				res += " |";
+			res += " " + run_forked([&](Out& o) {
+				Minimization M(ftol);
+				run_member(M, ms[i], o);
+			});
+		}
+		return res;
 	}
 	throw BadOp();
 }
